@@ -113,5 +113,5 @@ Spec == Init /\ [][Next]_vars
 Accepted ==
   LET n == TLCGet("stats").diameter IN
   IF n - 1 = Len(Tr) THEN TRUE
-  ELSE PrintT(<<"REJECTED_AT", n, ToString(Tr[n])>>)
+  ELSE PrintT(<<"REJECTED_AT", n, ToString(Tr[n])>>) /\ FALSE
 =============================================================================
